@@ -198,6 +198,9 @@ impl Prop for C06 {
             "refbin + String::from_utf16 / encoding_rs without BOM handling are the reference decoders".into(),
         ]
     }
+    fn both_builds() -> bool {
+        true
+    }
     fn random_cases(tier: Tier) -> u64 {
         tier.pick(16_000, 300_000)
     }
